@@ -402,13 +402,25 @@ def check_property(pid, tier, only_units=None):
         for msg in r['undecided']:
             log('    undecided: %s' % msg[:400])
     if violations:
+        seen = set()
         for r, f in violations:
+            if (r['unit'], f['name']) in seen:
+                continue
+            seen.add((r['unit'], f['name']))
             witness = f.get('witness')
+            if witness is None and os.environ.get('VERIF_NO_WITNESS') != '1':
+                try:
+                    import replay as replay_mod
+                    wdir = os.path.join(SCRATCH_BASE, 'ckbverif.wit.%d' % os.getpid())
+                    os.makedirs(wdir, exist_ok=True)
+                    witness = replay_mod.find_witness(r, f, wdir, REPO)
+                except Exception as e:  # noqa
+                    log('    witness search failed: %s' % e)
             rel = write_replay(pid, r, f, witness)
             tail = '' if witness else ' no-failing-input-found'
-            print('VIOLATION property=%s replay=%s obligation=%s%s' % (pid, rel, f['name'], tail) if False else
-                  'VIOLATION property=%s replay=%s%s' % (pid, rel, tail))
+            print('VIOLATION property=%s replay=%s%s' % (pid, rel, tail))
             log('    failed obligation %s in %s: %s' % (f['name'], f.get('function'), f.get('message')))
+        shutil.rmtree(os.path.join(SCRATCH_BASE, 'ckbverif.wit.%d' % os.getpid()), ignore_errors=True)
         return 1
     if undecided:
         log('UNDECIDED property=%s (%d unit(s)); no alarm raised' % (pid, len(undecided)))
@@ -445,7 +457,10 @@ def write_evidence(pid, tier, results, violations, wall):
             if t not in trusted:
                 trusted.append(t)
         for a in r.get('assumed', []):
-            trusted.append('ASSUMED CONTRACT (real function, body not verified, text hash pinned): %s' % a['function'])
+            if a.get('proved_in'):
+                trusted.append('callee contract of %s used in unit %s is the one proved in unit %s (same TOML text)' % (a['function'], r['unit'], a['proved_in']))
+            else:
+                trusted.append('ASSUMED CONTRACT (real function, body not verified, text hash pinned): %s' % a['function'])
         if r.get('cmd'):
             cmds.append(r['cmd'])
         for o in r['obligations'][:400]:
